@@ -1052,6 +1052,7 @@ def object_cases(ctx, pay, terms, descr):
             for op in pre:
                 run_op(pay, cache, op)
             t = Tile((x, y, z))
+            completed = [False]
             for c in calls:
                 try:
                     if c[0] == 'load':
@@ -1060,18 +1061,18 @@ def object_cases(ctx, pay, terms, descr):
                         ret = bool(cache.is_cached(t, dimensions=dims_arg(c[1])))
                     elif c[0] == 'store':
                         t.source = ImageSource(BytesIO(pay.png[c[2]]))
-                        was_stored = bool(t.stored)
                         cache.store_tile(t, dimensions=dims_arg(c[1]))
                         ret = None
-                        if not was_stored:
-                            # the store of an object that is not marked stored returned normally: its address
-                            # (fixed by the first call that needed the location) now holds the payload
+                        first_completed, completed[0] = not completed[0], True
+                        if first_completed:
+                            # the first store through this object that returns normally (earlier ones, if any, raised):
+                            # its address (fixed by the first call that needed the location) now holds the payload
                             chk = Tile((x, y, z))
                             chk.location = t.location
                             cache.load_tile(chk)
                             if read_source(pay, chk) != list(pay.pixels[c[2]]):
                                 ctx.fail('file,tile-object,store-returned-without-writing',
-                                         'store_tile of a Tile object with stored == False returned normally, but a load of '
+                                         'the first store_tile through a Tile object that returned normally did not write: a load of '
                                          'its location does not return the payload (calls so far: %r)' % (calls[:len(obs) + 1],),
                                          {'backend': cfg, 'coord': [x, y, z], 'pre': pre, 'calls': calls[:len(obs) + 1]})
                     elif c[0] == 'store_fail':
@@ -1087,6 +1088,7 @@ def object_cases(ctx, pay, terms, descr):
                             try:
                                 cache.store_tile(t, dimensions=dims_arg(c[1]))
                                 ret = None
+                                completed[0] = True
                             except OSError:
                                 ret = False
                         finally:
